@@ -54,6 +54,36 @@ SPEC = ["integer :: a", "integer, parameter :: n = 1", "real(kind=8), dimension(
         "double precision d", "integer, dimension(:,:), pointer :: p2 => null()", "real, dimension(size(a)) :: b", "character*10 name",
         "character(len=3, kind=1) :: ck", "real :: m(2, 2) = reshape((/1., 2., 3., 4./), (/2, 2/))",
         "dimension a(3)", "allocatable :: z", "pointer :: z", "target :: z", "optional :: z", "intent(in) :: z", "volatile z", "sequence"]
+EXEC += [
+    "allocate(a(n), b(2, 3), stat=ierr, errmsg=msg)", "allocate(real :: p)", "allocate(character(len=5) :: cs)", "deallocate(a, b, stat=ierr)",
+    "nullify(p, q)", "p(1:) => q", "p(1:2, 1:3) => q", "goto (10, 20, 30) k", "go to 10", "if (x) 10, 20, 30", "return 1", "stop 'done'", "stop 123",
+    "read(5, *, iostat=ios, err=10, end=20) a, b", "read(unit=5, fmt='(a)', advance='no', size=n, eor=30) line", "read(10, rec=3) buf",
+    "read(nml=grp)", "read '(i3)', k", "write(*, fmt=100, iostat=ios) (v(i), i = 1, n)", "write(6, nml=grp)", "write(unit=u, rec=2, err=10) buf",
+    "print '(a, i3)', 'k =', k", "print 100, a, b", "open(unit=10, file='x', status='old', action='read', iostat=ios, err=10)",
+    "open(10, file=fn, form='unformatted', access='direct', recl=80)", "close(unit=10, status='delete', iostat=ios)", "inquire(file='x', exist=l, opened=o, number=n)",
+    "inquire(iolength=k) a, b", "backspace 10", "backspace(unit=10, iostat=ios)", "endfile 10", "endfile(10, err=20)", "rewind(unit=10)", "flush(10)", "flush 10",
+    "where (a > 0) b = sqrt(a)", "forall (i = 1:n, j = 1:m, a(i, j) /= 0) b(i, j) = 1 / a(i, j)", "call s(x, *10, *20)", "call obj%method(a, b=c)", "call s()",
+    "x = obj%comp(2)%inner(1:3)", "s(2:4) = 'abc'", "c = (1.0, -2.0e3)", "z = cmplx(a, b, kind=8)", "a(:, 1) = [(i * 2, i = 1, n)]", "b = reshape([1, 2, 3, 4], [2, 2])",
+    "l = a .eqv. b .neqv. c", "k = ishft(i, -2) + ibits(j, 1, 3)", "x = -a ** 2 ** 3", "x = a / b / c * d", "t = 'it''s' // \"say \"\"hi\"\"\"", "y = 1_8 + 2.5_dp - .5e-3_qp",
+    "entry e2(a, b)", "assign 10 to k", "pause 'wait'", "continue",
+]
+SPEC += [
+    "common a, b /blk/ c, d", "common // e, f", "common /b1/ g(10), h /b2/ k", "common /b3/ m, /b4/ n", "data a, b /1, 2/", "data (v(i), i = 1, 3) /3 * 0.0/", "data x /1.0/ y /2.0/",
+    "data s /'ab'/, t /.true./", "equivalence (a, b), (c(1), d(2, 3))", "namelist /g1/ a, b /g2/ c", "namelist /g3/ d, /g4/ e", "implicit real (a-h, o-z), integer (i-n)",
+    "implicit double precision (d)", "implicit character(len=4) (c)", "implicit type(t) (u-w)", "dimension a(10), b(2, 0:5), c(*)", "allocatable :: a(:), b(:, :)", "pointer :: p, q(:)",
+    "target :: t1, t2(10)", "parameter (pi = 3.14159, n = 10)", "intent(inout) :: a, b", "optional a, b", "save a, /blk/, b", "save :: c", "external f, g", "intrinsic :: sin, cos",
+    "volatile :: v1, v2", "asynchronous a1", "protected :: pr", "value :: va", "bind(c, name='cname') :: cv", "bind(c) :: /blk/", "import :: a, b", "import", "public", "private :: x, operator(+), assignment(=)",
+    "public :: operator(.myop.)", "enum, bind(c)\nenumerator :: red = 1, green\nenumerator blue\nend enum", "integer, parameter :: k = selected_real_kind(12, 200)",
+    "real(8), dimension(3, 3), target, save :: m = 0.0", "character(len=*), intent(in), optional :: name", "character(len=10, kind=1), dimension(5) :: names", "character(*) cs",
+    "type(t), pointer :: head => null()", "class(*), pointer :: any", "class(t), intent(inout) :: self", "logical, dimension(:), allocatable :: mask", "complex(kind=8) :: z = (1.0_8, 0.0_8)",
+    "integer :: a = 1, b(3) = (/1, 2, 3/), c", "real x, y(10), z*8", "double precision, external :: dnrm2", "procedure(), pointer :: pp", "procedure(real), pointer :: pr => null()",
+    "procedure(iface), bind(c) :: cproc", "use, intrinsic :: iso_c_binding", "use, non_intrinsic :: mymod, only: a, b => c", "use m3, x => y, z => w", "use m4, only: operator(.op.), assignment(=)",
+    "use m5, only:", "type, abstract :: base\nend type base", "type, extends(base), public :: child\ninteger :: k\nend type child", "type :: node\nsequence\ninteger :: v\ntype(node), pointer :: next => null()\nend type node",
+    "type, bind(c) :: ct\ninteger(c_int) :: i\nend type ct", "type :: tb\ninteger :: k\ncontains\nprocedure :: p1\nprocedure, pass(self), public :: p2 => impl\nprocedure(iface), deferred :: p3\ngeneric :: g => p1, p2\ngeneric, private :: operator(+) => p1\nfinal :: cleanup\nend type tb",
+    "type :: pt(k, n)\ninteger, kind :: k = 4\ninteger, len :: n\nreal(k) :: v(n)\nend type pt", "type(pt(8, 10)) :: pv", "type(pt(k=4, n=:)), allocatable :: pa",
+    "interface\nsubroutine ext(a)\nreal a\nend subroutine ext\nend interface", "abstract interface\nfunction fi(x) result(r)\nreal x, r\nend function fi\nend interface",
+    "interface operator(.dot.)\nmodule procedure dotp\nend interface operator(.dot.)", "interface assignment(=)\nmodule procedure assign_t\nend interface", "interface read(formatted)\nmodule procedure rf\nend interface",
+]
 IFACE = ["procedure f", "module procedure f", "module procedure f, g", "subroutine s(a)\ninteger a\nend subroutine s",
          "function f(x)\nreal x\nend function f"]
 FORMATS = ["1x, i5", "i5", "f10.3", "a", "3(i2, 1x)", "'text'", "e12.4", "2i5", "a, /, a", "i5.3, es12.4", "l1, g10.3", "tr2, tl1, t10"]
